@@ -46,6 +46,15 @@ def finding_key(req, obs, detail):
     if cls in ("unsized-array-unbound", "static-object-bound", "nested-array-unbound", "struct-resource-unbound",
                "numthreads-ambiguous"):
         return f"{tgt} {cls}"
+    if cls == "entry-name-ambiguous":
+        # bindings are reported under their leaf name: two declarations in different namespaces whose (generated)
+        # leaf names coincide can not be told apart
+        nm = re.search(r"`([^`]*)`", rest)
+        amb = nm.group(1) if nm else ""
+        res = _res_items(req)
+        same = [p for p in res if p[0] == amb or re.fullmatch(re.escape(p[0]) + r"_\d+", amb)]
+        if len(same) >= 2 and any(len(p) > 7 and "ns" in p[7].split("+") for p in same):
+            return f"{tgt} {cls} same-leaf-name-in-two-namespaces"
     if cls == "entry-name-ambiguous" and tgt != "msl":
         # a cbuffer block keeps its source name on HLSL; a global whose name is reserved is renamed `<name>_<n>`:
         # a cbuffer called exactly that collides with it
@@ -210,15 +219,18 @@ def custom(ctx):
 
 SPEC = {
     "id": "C05",
-    "gens": ["SlotTables", "CompileTables", "MetaTables"],
+    "gens": ["SlotTables", "CompileTables", "MetaTables", "Reserved"],
     "lean_modules": ["RsslVerif.Thm.C05"],
     "theorems": [T + n for n in [
         "source_shape_as_modelled", "descriptor_tables_agree", "register_class_of_descriptor", "msl_entry_names_agree",
         "annot_matches_meta_hlsl", "annot_matches_meta_msl", "non_extern_global_unbound",
         "descriptor_kind_count", "meta_bijective_hlsl", "meta_bijective_msl", "meta_bijective_msl_exact", "msl_sort_keeps_sorted",
-        "excluded_declarations", "used_sound_complete_partial", "used_flag",
+        "excluded_declarations", "used_iff_reachable_of_result", "usage_loop_terminates", "used_sound_complete", "used_flag",
         "hlsl_params_of_targets", "hlsl_annotations_total", "annot_iff_entry", "annotations_match_metadata_hlsl",
-        "entry_named_and_defined", "thread_group_size_ambiguous_witness"]],
+        "entry_named_and_defined", "thread_group_size_ambiguous_witness", "stage_records_follow_properties",
+        "reported_size_is_the_typers_record", "pipeline_names_distinct", "reported_name_denotes_one_symbol",
+        "reported_name_not_reserved", "name_kept_when_unique_and_free", "hlsl_cbuffer_bypasses_name_map_witness",
+        "same_leaf_name_in_two_namespaces_witness"]],
     "harness": "c05",
     "nontrivial": nontrivial,
     "finding_key": finding_key,
